@@ -249,6 +249,6 @@ _ADD4 = {
 }
 for _k, _t in _ADD4.items():
     CHECKS[_k]["technique"] += _t
-NOTES = NOTES.replace("Extension checks X01..X05", "Extension checks X01..X11")
+NOTES = NOTES.replace("Extension checks X01..X05", "Extension checks X01..X12")
 NOTES += (" audit/ holds demonstration programs written by independent sub-agents that audited the unchanged tree against the property texts (DESIGN 7.6); "
           "the defects among them that were repaired are the `fixed:` lines D22..D30 of KNOWN_FINDINGS.txt.")
